@@ -9,6 +9,7 @@ class _SimpleCallQueue(object):
         self._events = []
         self._flushObservers = []
         self._timer = None
+        self._in_turn = False
 
     def append(self, cb, args, kwargs):
         self._events.append((cb, args, kwargs))
@@ -21,11 +22,13 @@ class _SimpleCallQueue(object):
         # gets added to the queue while we're doing this, those events will
         # be put off until the next turn.
         events, self._events = self._events, []
+        self._in_turn = True
         for cb, args, kwargs in events:
             try:
                 cb(*args, **kwargs)
             except:
                 log.err()
+        self._in_turn = False
         if not self._events:
             observers, self._flushObservers = self._flushObservers, []
             for o in observers:
@@ -34,7 +37,7 @@ class _SimpleCallQueue(object):
     def flush(self):
         """Return a Deferred that will fire (with None) when the call queue
         is completely empty."""
-        if not self._events:
+        if not self._events and not self._in_turn:
             return defer.succeed(None)
         d = defer.Deferred()
         self._flushObservers.append(d)
